@@ -1,4 +1,5 @@
 """C08 — units of results follow dimensional analysis, independent of factor order."""
+import collections
 from fractions import Fraction as F
 
 from props import _units as X
@@ -42,6 +43,7 @@ TECHNIQUE = "Lean 4 theorems over an exact list/Rat model + translator-generated
 
 def gen_cases(rng, n):
     cases, skipped = [], 0
+    tags = collections.Counter()
     # fixed corpus: the probe that showed the defect and its relatives
     def lf(u, sep="*"):
         return ["leaf", X.units_json(u), X.unit_string(u, sep)]
@@ -63,6 +65,29 @@ def gen_cases(rng, n):
     ]
     for t in corpus + UF.probes():
         cases.append([["eval", t]])
+    # NEAR MISSES (deliberate, every kind several times per run): a +/- whose operands differ
+    # genuinely but by little — an exponent off by 1/2, 1/3, 1/6 or 1, two exponents exchanged,
+    # a sign, one more / one fewer symbol, proportional exponents, another letter case — with
+    # integer and with half-integer base exponents; must warn and give no unit
+    per_kind = max(3, n // 80)
+    for kind in X.NEAR_KINDS:
+        made = tries = 0
+        while made < per_kind and tries < 40 * per_kind:
+            tries += 1
+            syms = rng.sample(X.SYMS, rng.randint(1, 3))
+            r = X.near_mismatch_tree(rng, kind, rng.choice([0, 1, 1, 2]), syms)
+            if r is None or X.dim_tree(r[0], {})[0] != "mismatch" or X.tree_size(r[0]) > 60:
+                continue
+            t = r[0]
+            if rng.random() < 0.3:
+                t = UF.vary_types(rng, t)
+            if not X.float_ok(t, {}):
+                skipped += 1
+                tags["not-judged:binary64-decision:" + r[1]] += 1
+                continue
+            made += 1
+            tags[r[1]] += 1
+            cases.append([["eval", t]])
     n += len(cases)
     while len(cases) < n:
         depth = rng.choice([2, 3, 3, 4, 4, 5])
@@ -96,12 +121,13 @@ def gen_cases(rng, n):
             skipped += 1
             continue
         cases.append([["eval", t]])
-    return cases, skipped
+    return cases, skipped, tags
 
 
 def correspond(ctx):
-    cases, skipped = gen_cases(ctx.rng, ctx.n(400, 20000))
+    cases, skipped, tags = gen_cases(ctx.rng, ctx.n(400, 20000))
     r = X.run_cases(ctx, ID, cases)
+    r["distribution"].update(tags)
     nontrivial = set()
     for (ci, t, dh, dm, o, si) in r.pop("evals"):
         if X.differently_ordered_sum(t):
@@ -113,13 +139,13 @@ def correspond(ctx):
 
 def search(ctx, broken):
     out = {"failures": [], "strategy": []}
-    cases, _ = gen_cases(ctx.rng, ctx.n(1500, 20000))
+    cases, _, _ = gen_cases(ctx.rng, ctx.n(1500, 20000))
     r = X.run_cases(ctx, ID, cases, use_model=False)
     out["failures"] += [f for f in r["failures"] if f.get("oracle") == "independent"]
     out["strategy"].append("exact dimensional analysis on Fractions as oracle: {} trees".format(
         r["evaluations"]))
     try:
-        cases, _ = gen_cases(ctx.rng, ctx.n(600, 5000))
+        cases, _, _ = gen_cases(ctx.rng, ctx.n(600, 5000))
         r = X.run_cases(ctx, ID, cases, ref=True)
         for f in r["failures"]:
             if f["signature"].startswith("c08:model-differs"):
